@@ -21,8 +21,7 @@ monoclock_get(struct timeval * tv)
 	n.tv_usec = __VERIFIER_nondet_long();
 	__CPROVER_assume(EV_TV_OK(n) && EV_TV_LE(g_mc_now, n));
 	g_mc_now = n;
-	if (g_mc_calls < 1000000)
-		g_mc_calls++;
+	g_mc_calls++;	/* ghost: "a clock read happened" (wrap-around is harmless: only compared for change) */
 	*tv = n;
 	return (0);
 }
